@@ -90,6 +90,12 @@ def build_pool(ctx, n_real, n_synth):
             ('alias2-a', [302040, 12001], True), ('alias2-b', [102002, 12001, 7001, 1001], True),
             ('alias3-a', [302047, 12001], True), ('alias3-b', [102003, 12001, 7001, 1001], True)]:
         damaged.append({'id': 'r:' + name, 'hex': O.mk_message(ids, 64, 33, pattern=pat).hex(), 'kind': 'register'})
+    # the SAME descriptor list under different master table versions, over elements whose Table B
+    # entry differs between the versions (a compiled template must not be shared across table groups)
+    for name, ids in [('xver-14001', [1001, 14001, 12001]), ('xver-1103', [1103, 12001]), ('xver-15009', [15009, 2007, 1001]),
+                      ('xver-22039', [22039, 12001])]:
+        for v in (13, 33, 19):
+            damaged.append({'id': 'r:%s-v%d' % (name, v), 'hex': O.mk_message(ids, 64, v, pattern=True).hex(), 'kind': 'register'})
     # synthetic messages: version x local table x template
     synth = []
     versions = sorted(int(os.path.basename(p)) for p in glob.glob(os.path.join(lib.REPO, 'pybufrkit', 'tables', '0', '0_0', '*'))
